@@ -20,6 +20,7 @@ import numpy as np
 
 from vlib import core
 from harness import mps_common as mc
+from harness import mps_extra as mx
 
 sys.path.insert(0, str(core.ROOT / 'tools'))
 
@@ -134,6 +135,8 @@ def forms_arg(names):
 
 
 def eval_case(case):
+    if case['kind'] == 'extra':
+        return mx.eval_c07(case)
     kind = case['kind']
     if kind == 'inf':
         return eval_inf(case)
@@ -626,13 +629,19 @@ def corpus_cases():
     return out
 
 
+ANCHOR_COVERAGE_NOTE = ("coverage round 2026-09-26 (measured outside the check, quick tier seed 0, coverage --branch on tenpy/networks/mps.py): this property's quick tier 32.4% -> 44.4% (lines 35.8% -> 47.7%, branches 24.2% -> 36.3%); C07+C08+C09 together 57.5% -> 83.5% (lines 61.2% -> 85.5%, branches 48.5% -> 78.6%). 11 extra mechanisms with dense oracles in harness/mps_extra.py (C07_SUBS); see notes/C07.md 'Coverage round'.")
+
+
 def run(ctx):
     res = core.Result()
+    res.extra['anchor_coverage_note'] = ANCHOR_COVERAGE_NOTE
     for p in selfcheck():
         res.fail('correspondence', 'C07.driver.selfcheck', p, {})
     rng = ctx.sub_rng('cases')
     n = 220 if ctx.quick else 6000
     cases = corpus_cases() + gen_cases(rng, n, ctx.quick)
+    xr = ctx.sub_rng('extra')
+    cases += mx.gen_extras(xr, mx.C07_SUBS, 60 if ctx.quick else 900)
     results, derrs = mc.run_cases(ctx, PROP, 'harness.C07', 'eval_case', cases,
                                   budget_s=ctx.budget_s * 0.8 if not ctx.quick else None)
     return mc.fold_results(res, results, derrs, PROP, shrink=shrink)
